@@ -45,7 +45,8 @@ TypeName(id) == CASE id \in {"tname-attr", "named-attr"} -> "attr"
                   [] id = "tname-rel2" -> "rel,tx"
                   [] id = "tname-rel4" -> "rel,a,b,c"
                   [] OTHER -> "st"
-SaneIds == {"ok", "last", "named", "tname-attr", "tname-rel", "tname-rel2", "tname-rel4", "named-attr"}
+\* ("embedded": the ID field is promoted from a struct that the declaration embeds)
+SaneIds == {"ok", "last", "named", "tname-attr", "tname-rel", "tname-rel2", "tname-rel4", "named-attr", "embedded"}
 
 \* the declaration is one the library can serve: this is what a sound Check accepts at most
 Sane(sh) ==
